@@ -64,7 +64,10 @@ class C32(Prop):
   rule = ("Hypothesis-generated traces in the exact layout miros' trace() produces ('[timestamp] "
           "[chart name] e->SIGNAL() from->to', leading newline, one line per record): 1-6 records "
           "with arbitrary chart names and signal names (any Unicode without line-boundary "
-          "characters), identifier state names and arbitrary valid timestamps. Metamorphic oracle: "
+          "characters), identifier state names and arbitrary valid timestamps. Every case also drives a real two-state "
+          "chart (generated chart name and signal names, its clock returning the generated "
+          "timestamps, some of them on a whole second) and strips what its trace() returns. "
+          "Metamorphic oracle: "
           "a copy with new timestamps, inserted blank lines and spaces/tabs around lines strips to "
           "an equal list; a copy with one field edited, one record dropped, two different adjacent "
           "records swapped or one record duplicated strips to an unequal list. Reference oracle: "
@@ -80,7 +83,69 @@ class C32(Prop):
   def strategy(self, tier):
     return trace_case()
 
+  def check_real_trace(self, case, stats):
+    """A trace that miros itself produces (a two-state chart with a generated chart name and
+    signal names, driven through real transitions) strips to its records without timestamps."""
+    from miros.hsm import stripped, HsmWithQueues, spy_on as deco
+    from miros.event import Event, signals, return_status
+    recs = [tuple(r) for r in case["recs"]]
+    chart_name = recs[0][0]
+    sig_names = [r[1] for r in recs]
+
+    def make(name, other):
+      def st_(chart, e):
+        if e.signal in (signals.ENTRY_SIGNAL, signals.EXIT_SIGNAL, signals.INIT_SIGNAL):
+          return return_status.HANDLED
+        if e.signal_name in sig_names:
+          return chart.trans(fns[other])
+        chart.temp.fun = chart.top
+        return return_status.SUPER
+      st_.__name__ = name
+      return deco(st_)
+    fns = {}
+    fns["va"], fns["vb"] = make("vtrace_a", "vb"), make("vtrace_b", "va")
+    # the chart's clock returns the case's generated timestamps (some on a whole second)
+    import miros.hsm as hsm_mod
+    real_dt = hsm_mod.stdlib_datetime
+    stamps = [datetime.datetime.fromisoformat(x) for x in case["stamps_a"] + case["stamps_b"]]
+    stamps = stamps + [x.replace(microsecond=0) for x in stamps[:2]]
+    counter = [0]
+
+    class GeneratedClock(real_dt):
+      @classmethod
+      def now(cls, tz=None):
+        counter[0] += 1
+        return stamps[counter[0] % len(stamps)]
+    hsm_mod.stdlib_datetime = GeneratedClock
+    try:
+      return self._real_trace_body(case, fns, sig_names, chart_name, stripped, HsmWithQueues, Event)
+    finally:
+      hsm_mod.stdlib_datetime = real_dt
+
+  def _real_trace_body(self, case, fns, sig_names, chart_name, stripped, HsmWithQueues, Event):
+    chart = HsmWithQueues()
+    chart.name = chart_name
+    chart.start_at(fns["va"])
+    want = ["[%s] e->start_at() top->vtrace_a" % chart_name]
+    cur = "vtrace_a"
+    for sg in sig_names:
+      chart.post_fifo(Event(signal=sg))
+      chart.next_rtc()
+      nxt = "vtrace_b" if cur == "vtrace_a" else "vtrace_a"
+      want.append("[%s] e->%s() %s->%s" % (chart_name, sg, cur, nxt))
+      cur = nxt
+    text = chart.trace()
+    with stripped(text) as got:
+      if list(got) != want:
+        raise PropertyViolation("trace() of a real chart %r stripped to %r, expected %r" % (text, got, want),
+                                "C32:real-trace")
+    with stripped(text) as a, stripped(text.replace("\n", "\n \n  ")) as b:
+      if a != b:
+        raise PropertyViolation("a real trace and its copy with blank lines and indentation strip "
+                                "differently: %r vs %r" % (a, b), "C32:real-trace")
+
   def check(self, case, stats):
+    self.check_real_trace(case, stats)
     from miros.hsm import stripped
     iso = datetime.datetime.fromisoformat
     recs = [tuple(r) for r in case["recs"]]
